@@ -1,11 +1,122 @@
-/- BDS 5,0 — crates/rs1090/src/decode/bds/bds50.rs   (STUB: not modelled yet) -/
+/-
+BDS 5,0 track and turn report — crates/rs1090/src/decode/bds/bds50.rs
+
+`TrackAndTurnReport` (56 bits, `#[serde(tag = "bds", rename = "50")]`), no `skip_serializing_if`:
+absent options print as `null`.
+
+  1+1+9   roll_angle     read_roll               "roll"   Option<f64>  n·45/256, |roll| > 50 ⇒ Err
+  1+1+10  track_angle    read_track              "track"  Option<f64>  v·90/512 (+360 if negative)
+  1+10    groundspeed    read_groundspeed                 Option<u16>  2·value, > 600 ⇒ Err
+  1+1+9   track_rate     read_rate(roll_angle)            Option<f64>  v·8/256; value = 511 ⇒ None;
+                                                          roll·rate < 0 ⇒ Err
+  1+10    true_airspeed  read_tas(groundspeed)   "TAS"    Option<u16>  2·value; when GS is present:
+                                                          TAS ∉ [80,500] or |GS − TAS| > 200 ⇒ Err
+
+Every f64 operation here is exact (small integers times 45, 90, 8, divided by a power of two;
+`+ 360`; the product roll·rate = n·v·45/8192), so the rational values and the comparisons are
+the float ones.  Quirks kept: TAS is not range-checked at all when the ground speed is absent;
+track-rate value 511 gives `None` whatever the sign bit; sign set with value 0 is −180°
+→ 180° for the track and −16 °/s for the rate.
+-/
 import Rs1090.Model.Decode.Common
 namespace Rs1090.Model.Bds50
 open Rs1090 Rs1090.Model
 
-/-- STUB -/
-def modelled : Bool := false
+def modelled : Bool := true
 
-def read : R SerFields := R.fail .other
+/-- `i16::abs` (overflow-checked: `i16::MIN.abs()` panics) -/
+def absS16 (x : Int) : Outcome Int :=
+  if x == -32768 then .panic .negOverflow else .ok (Int.ofNat x.natAbs)
+
+/-- `read_roll`: the angle in units of 45/256 degree; sign bit ⇒ `value − 512` (f64 arithmetic) -/
+def rollNum (sign value : Nat) : Int :=
+  if sign > 0 then (value : Int) - 512 else (value : Int)
+
+def roll (status : Bool) (sign value : Nat) : Outcome (Option Int) :=
+  if !status then
+    (if sign != 0 || value != 0 then .err .assertion else .ok none)
+  else
+    let n := rollNum sign value
+    -- `roll.abs() > 50.`  ⇔  |n|·45 > 50·256
+    if n.natAbs * 45 > 12800 then .err .assertion else .ok (some n)
+
+/-- signed 11-bit angle code: `value as i16 - 1024` when the sign bit is set (i16, overflow-checked) -/
+def signed (half : Int) (sign value : Nat) : Outcome Int :=
+  if sign == 1 then subS 16 (value : Int) half else .ok (value : Int)
+
+/-- numerator over 512 of `v * 90 / 512`, with `+ 360` when negative -/
+def angleNum (v : Int) : Int :=
+  if v < 0 then v * 90 + 360 * 512 else v * 90
+
+/-- `read_track`: numerator over 512 of the track angle in degrees -/
+def track (status : Bool) (sign value : Nat) : Outcome (Option Int) :=
+  if !status then
+    (if sign != 0 || value != 0 then .err .assertion else .ok none)
+  else do
+    let v ← signed 1024 sign value
+    .ok (some (angleNum v))
+
+/-- `read_groundspeed`: knots, `value * 2` on u16 -/
+def groundspeed (status : Bool) (value : Nat) : Outcome (Option Nat) :=
+  if !status then
+    (if value != 0 then .err .assertion else .ok none)
+  else do
+    let gs ← mulU 16 value 2
+    if gs > 600 then .err .assertion else .ok (some gs)
+
+/-- `read_rate`: numerator over 256 of the track rate (`v * 8 / 256` °/s); `rollN` is the roll
+    angle in units of 45/256 degree -/
+def rate (rollN : Option Int) (status : Bool) (sign value : Nat) : Outcome (Option Int) :=
+  if !status then
+    (if sign != 0 || value != 0 then .err .assertion else .ok none)
+  else if value == 511 then .ok none
+  else do
+    let v ← signed 512 sign value
+    match rollN with
+    | some n =>
+      -- `roll * rate < 0.`  ⇔  (n·45/256)·(v·8/256) < 0
+      if (n * 45) * (v * 8) < 0 then .err .assertion else .ok (some (v * 8))
+    | none => .ok (some (v * 8))
+
+/-- `read_tas`: knots, `value * 2` on u16; cross-check against the ground speed when present:
+    `!(80..=500).contains(&tas) | ((gs as i16 - tas as i16).abs() > 200)` (both sides evaluated) -/
+def tas (gs : Option Nat) (status : Bool) (value : Nat) : Outcome (Option Nat) :=
+  if !status then
+    (if value != 0 then .err .assertion else .ok none)
+  else do
+    let t ← mulU 16 value 2
+    match gs with
+    | some g => do
+      let d ← subS 16 (g : Int) (t : Int)
+      let a ← absS16 d
+      if !(80 ≤ t && t ≤ 500) || a > 200 then .err .assertion else .ok (some t)
+    | none => .ok (some t)
+
+def read : R SerFields := do
+  let rStatus ← flag
+  let rSign ← bits 1
+  let rValue ← bits 9
+  let rollN ← R.lift (roll rStatus rSign rValue)
+  let tStatus ← flag
+  let tSign ← bits 1
+  let tValue ← bits 10
+  let trk ← R.lift (track tStatus tSign tValue)
+  let gStatus ← flag
+  let gValue ← bits 10
+  let gs ← R.lift (groundspeed gStatus gValue)
+  let qStatus ← flag
+  let qSign ← bits 1
+  let qValue ← bits 9
+  let rt ← R.lift (rate rollN qStatus qSign qValue)
+  let aStatus ← flag
+  let aValue ← bits 10
+  let ta ← R.lift (tas gs aStatus aValue)
+  pure <| .ok [
+    fld (key! "bds") (.lit (key! "50")),
+    fldOpt (key! "roll") (rollN.map fun n => jrat (n * 45) 256),
+    fldOpt (key! "track") (trk.map fun n => jrat n 512),
+    fldOpt (key! "groundspeed") (gs.map jnat),
+    fldOpt (key! "track_rate") (rt.map fun n => jrat n 256),
+    fldOpt (key! "TAS") (ta.map jnat) ]
 
 end Rs1090.Model.Bds50
